@@ -225,6 +225,7 @@ func parserPart(tier string, sh *vkit.Shard, p *vkit.Part) {
 					p.Count("parser_reported_strings_searched_for_poison", r.Reported)
 					p.Count("parser_retained_tail_differs_from_input_without_poison(C06)", r.TailDiffs)
 					p.Count("parser_stale_sentinel_in_reported_or_retained_data(not_judged)", r.StaleSeen)
+					p.Count("parser_open_parser_keeping_a_released_cache_pointer(not_judged)", r.DanglingCache)
 					if r.ContentOff {
 						p.Count("parser_runs_without_content_oracle(poison_byte_in_input)", 1)
 					}
